@@ -128,7 +128,7 @@ class _G:
             return self.leaf()
         opts = ['chain'] * 5 + ['dict'] * 3 + ['leaf'] * 2 + ['coalesce', 'and', 'or', 'switch', 'switch',
                                                              'list', 'specscope', 'vars', 'regex', 'matchdict',
-                                                             'ref', 'nested', 'wrap']
+                                                             'ref', 'nested', 'wrap', 'mutlit']
         c = rng.choice(opts)
         d = depth + 1
         if c == 'leaf':
@@ -197,6 +197,20 @@ class _G:
             self.vars_bound.pop()
             self.binders += 1
             return ['tuple', steps]
+        if c == 'mutlit':
+            # a mutable literal bound with S(), written through the scope: every evaluation binds a
+            # fresh copy, so the read BEFORE the write never shows what an earlier evaluation stored
+            name = rng.choice(['m1', 'm2'])
+            lit = {'t': 'dict', 'v': [] if rng.random() < 0.6 else [['z', self.token()]]}
+            rd = lambda: ['Coalesce', [['T', 'S', [['.', name], ['[', 'a']]]], {'default': EMPTY}]
+            self.binders += 1
+            self.seen_names.append(name)
+            return ['tuple', [['T', 'S', [['(', [[], {name: lit}]]]],
+                              ['T', 'S', [['(', [[], {name + 'b': {'t': 'spec', 'v': rd()}}]]]],
+                              ['Val', self.token()],
+                              ['T', 'A', [['.', name], ['[', 'a']]],
+                              ['dict', [['before', ['T', 'S', [['.', name + 'b']]]], ['after', rd()], ['whole', ['Coalesce', [['T', 'S', [['.', name]]]], {'default': EMPTY}]],
+                                        ['rest', self.observe(d)]]]]]
         if c == 'regex':
             word = rng.choice(['ab12', 'zz9', 'q0'])
             self.binders += 1
